@@ -48,7 +48,12 @@ func AppendHandlers(ctx context.Context, info *RunInfo, handlers ...Handler) con
 	if !ok {
 		return InitCallbacks(ctx, info, handlers...)
 	}
-	return InitCallbacks(ctx, info, append(cbm.handlers, handlers...)...)
+	// copy: the inherited slice is shared with sibling nodes running in parallel, appending to it
+	// in place would let them overwrite each other's node-designated handlers
+	nHandlers := make([]Handler, 0, len(cbm.handlers)+len(handlers))
+	nHandlers = append(nHandlers, cbm.handlers...)
+	nHandlers = append(nHandlers, handlers...)
+	return InitCallbacks(ctx, info, nHandlers...)
 }
 
 type Handle[T any] func(context.Context, T, *RunInfo, []Handler) (context.Context, T)
@@ -60,10 +65,14 @@ func On[T any](ctx context.Context, inOut T, handle Handle[T], timing CallbackTi
 	}
 
 	hs := make([]Handler, 0, len(mgr.handlers)+len(mgr.globalHandlers))
-	for _, handler := range append(mgr.handlers, mgr.globalHandlers...) {
-		timingChecker, ok_ := handler.(TimingChecker)
-		if !ok_ || timingChecker.Needed(ctx, mgr.runInfo, timing) {
-			hs = append(hs, handler)
+	// (not append(mgr.handlers, mgr.globalHandlers...): that writes into the spare capacity of a
+	// slice shared with other nodes)
+	for _, handlers := range [][]Handler{mgr.handlers, mgr.globalHandlers} {
+		for _, handler := range handlers {
+			timingChecker, ok_ := handler.(TimingChecker)
+			if !ok_ || timingChecker.Needed(ctx, mgr.runInfo, timing) {
+				hs = append(hs, handler)
+			}
 		}
 	}
 
